@@ -2,6 +2,7 @@ package main
 
 import (
 	"fmt"
+	"log"
 	"reflect"
 	"runtime/debug"
 	"strings"
@@ -23,6 +24,57 @@ type (
 // treat an alias exactly like the native value it converts to, not call the user's stringer.
 func (a StackAliasS) String() string { return "<StackAliasS.String>" }
 func (a CondAliasS) String() string  { return "<CondAliasS.String>" }
+
+// StackAliasF / CondAliasF wrap every method of the package's exported Interface, the way the README tells
+// users to ("wrap all of the package-provided methods"): values of these types satisfy stackage.Interface
+// without being a Stack or a Condition.
+type (
+	StackAliasF stackage.Stack
+	CondAliasF  stackage.Condition
+)
+
+func (a StackAliasF) Len() int                  { return stackage.Stack(a).Len() }
+func (a StackAliasF) IsInit() bool              { return stackage.Stack(a).IsInit() }
+func (a StackAliasF) IsFIFO() bool              { return stackage.Stack(a).IsFIFO() }
+func (a StackAliasF) IsZero() bool              { return stackage.Stack(a).IsZero() }
+func (a StackAliasF) IsEqual(x any) error       { return stackage.Stack(a).IsEqual(x) }
+func (a StackAliasF) IsParen() bool             { return stackage.Stack(a).IsParen() }
+func (a StackAliasF) IsEncap() bool             { return stackage.Stack(a).IsEncap() }
+func (a StackAliasF) IsPadded() bool            { return stackage.Stack(a).IsPadded() }
+func (a StackAliasF) IsNesting() bool           { return stackage.Stack(a).IsNesting() }
+func (a StackAliasF) Unmarshal() ([]any, error) { return stackage.Stack(a).Unmarshal() }
+func (a StackAliasF) CanNest() bool             { return stackage.Stack(a).CanNest() }
+func (a StackAliasF) ID() string                { return stackage.Stack(a).ID() }
+func (a StackAliasF) Addr() string              { return stackage.Stack(a).Addr() }
+func (a StackAliasF) String() string            { return stackage.Stack(a).String() }
+func (a StackAliasF) Category() string          { return stackage.Stack(a).Category() }
+func (a StackAliasF) Err() error                { return stackage.Stack(a).Err() }
+func (a StackAliasF) Valid() error              { return stackage.Stack(a).Valid() }
+func (a StackAliasF) Logger() *log.Logger       { return stackage.Stack(a).Logger() }
+
+func (a CondAliasF) Len() int                  { return stackage.Condition(a).Len() }
+func (a CondAliasF) IsInit() bool              { return stackage.Condition(a).IsInit() }
+func (a CondAliasF) IsFIFO() bool              { return stackage.Condition(a).IsFIFO() }
+func (a CondAliasF) IsZero() bool              { return stackage.Condition(a).IsZero() }
+func (a CondAliasF) IsEqual(x any) error       { return stackage.Condition(a).IsEqual(x) }
+func (a CondAliasF) IsParen() bool             { return stackage.Condition(a).IsParen() }
+func (a CondAliasF) IsEncap() bool             { return stackage.Condition(a).IsEncap() }
+func (a CondAliasF) IsPadded() bool            { return stackage.Condition(a).IsPadded() }
+func (a CondAliasF) IsNesting() bool           { return stackage.Condition(a).IsNesting() }
+func (a CondAliasF) Unmarshal() ([]any, error) { return stackage.Condition(a).Unmarshal() }
+func (a CondAliasF) CanNest() bool             { return stackage.Condition(a).CanNest() }
+func (a CondAliasF) ID() string                { return stackage.Condition(a).ID() }
+func (a CondAliasF) Addr() string              { return stackage.Condition(a).Addr() }
+func (a CondAliasF) String() string            { return stackage.Condition(a).String() }
+func (a CondAliasF) Category() string          { return stackage.Condition(a).Category() }
+func (a CondAliasF) Err() error                { return stackage.Condition(a).Err() }
+func (a CondAliasF) Valid() error              { return stackage.Condition(a).Valid() }
+func (a CondAliasF) Logger() *log.Logger       { return stackage.Condition(a).Logger() }
+
+var (
+	_ stackage.Interface = StackAliasF{}
+	_ stackage.Interface = CondAliasF{}
+)
 
 // userOp is a user-defined Operator.
 type userOp struct{ text, ctx string }
@@ -289,8 +341,30 @@ func peelPointers(v any) any {
 	if rv.Kind() == reflect.Ptr && rv.IsNil() {
 		return v
 	}
+	if rv.Kind() == reflect.Ptr && rv.Type().Name() != "" {
+		// a declared pointer type (type StackRef *Stack) is a pointer like any other
+		rv = rv.Convert(reflect.PointerTo(rv.Type().Elem()))
+	}
 	return rv.Interface()
 }
+
+// deepPointer puts n pointer levels above v (n >= 1).
+func deepPointer(v any, n int) any {
+	rv := reflect.ValueOf(v)
+	for i := 0; i < n; i++ {
+		p := reflect.New(rv.Type())
+		p.Elem().Set(rv)
+		rv = p
+	}
+	return rv.Interface()
+}
+
+// Declared pointer types: pointers like any other, whatever they are called.
+type (
+	StackRef *stackage.Stack
+	AliasRef *StackAlias
+	CondRef  *stackage.Condition
+)
 
 func refAsStack(v any) (stackage.Stack, bool) {
 	var s stackage.Stack
@@ -318,7 +392,18 @@ func refAsStack(v any) (stackage.Stack, bool) {
 		}
 		s = stackage.Stack(*tv)
 	default:
-		return s, false
+		// any other type declared over Stack (and a pointer to one)
+		rv := reflect.ValueOf(v)
+		if rv.Kind() == reflect.Ptr {
+			if rv.IsNil() {
+				return s, false
+			}
+			rv = rv.Elem()
+		}
+		if rv.Kind() != reflect.Struct || !rv.Type().ConvertibleTo(stackType) {
+			return s, false
+		}
+		s = rv.Convert(stackType).Interface().(stackage.Stack)
 	}
 	if hollowHandle(s) {
 		return stackage.Stack{}, false
@@ -359,7 +444,17 @@ func refAsCond(v any) (stackage.Condition, bool) {
 		}
 		c = stackage.Condition(*tv)
 	default:
-		return c, false
+		rv := reflect.ValueOf(v)
+		if rv.Kind() == reflect.Ptr {
+			if rv.IsNil() {
+				return c, false
+			}
+			rv = rv.Elem()
+		}
+		if rv.Kind() != reflect.Struct || !rv.Type().ConvertibleTo(condType) {
+			return c, false
+		}
+		c = rv.Convert(condType).Interface().(stackage.Condition)
 	}
 	if hollowHandle(c) {
 		return stackage.Condition{}, false
@@ -475,6 +570,51 @@ func sameNamedTypes() string {
 	})
 	if p != "" {
 		bad = append(bad, "panic: "+p)
+	}
+	return strings.Join(bad, "; ")
+}
+
+// Two struct types of the same printed name (function-local declarations) and the same number of fields
+// whose exported / unexported layout differs.
+func sameNameRowA(seq int, note string) any {
+	type Row struct {
+		Seq  int
+		note string
+	}
+	return Row{seq, note}
+}
+
+func sameNameRowB(seq int, note string) any {
+	type Row struct {
+		seq  int
+		Note string
+	}
+	return Row{seq, note}
+}
+
+// sameNamedStructs: IsEqual on struct leaves of the first type, then of the second (and the first again):
+// each pair gets the answer it would get if the other type did not exist - exported fields are compared,
+// unexported ones skipped, whatever another type of the same name looks like.
+func sameNamedStructs() string {
+	var bad []string
+	check := func(what string, x, y any, wantEqual bool) {
+		for dir, pair := range [][2]any{{x, y}, {y, x}} {
+			var err error
+			if p := noPanic(func() { err = stackage.And().Push("lead", pair[0]).IsEqual(stackage.And().Push("lead", pair[1])) }); p != "" {
+				bad = append(bad, fmt.Sprintf("%s (direction %d): IsEqual panicked: %s", what, dir, p))
+				return
+			}
+			if (err == nil) != wantEqual {
+				bad = append(bad, fmt.Sprintf("%s (direction %d): IsEqual=%v, want equal=%v", what, dir, err, wantEqual))
+				return
+			}
+		}
+	}
+	for round := 0; round < 2; round++ {
+		check("first Row type, exported field differs", sameNameRowA(1, "x"), sameNameRowA(2, "x"), false)
+		check("first Row type, only the unexported field differs", sameNameRowA(1, "x"), sameNameRowA(1, "y"), true)
+		check("second Row type (same name, other layout), exported field differs", sameNameRowB(1, "p"), sameNameRowB(1, "q"), false)
+		check("second Row type, only the unexported field differs", sameNameRowB(1, "p"), sameNameRowB(2, "p"), true)
 	}
 	return strings.Join(bad, "; ")
 }
